@@ -90,11 +90,16 @@ func (nw *netw) maxFinal() int64 {
 
 // deliverable: may the scheduler hand p to node r now?
 func (nw *netw) deliverable(r *rnode, p *packet, now time.Time, relaxed bool) bool {
-	ds := p.dst[r.idx]
-	if ds == nil || ds.delivered < 0 {
+	if p.H != r.traceH {
 		return false
 	}
-	if p.H != r.traceH {
+	ds := p.dst[r.idx]
+	if ds == nil && relaxed && p.Src != r.idx {
+		// in benign / catch-up mode what was addressed to somebody else gets around too
+		ds = &dstState{}
+		p.dst[r.idx] = ds
+	}
+	if ds == nil || ds.delivered < 0 {
 		return false
 	}
 	if ds.delivered > 0 {
@@ -136,6 +141,9 @@ func (nw *netw) pickDelivery() bool {
 				}
 			}
 		}
+		if len(cand) == 0 && relaxed && nw.catchUp(r, now) {
+			return true
+		}
 		if len(cand) == 0 {
 			// now and then something of an earlier height (the engine must ignore it)
 			if nw.rnd.Intn(400) == 0 && r.traceH > 1 {
@@ -158,6 +166,48 @@ func (nw *netw) pickDelivery() bool {
 		if ds.delivered > 0 {
 			ds.dupLeft--
 		}
+		nw.evDeliver(r, p, nil)
+		return true
+	}
+	return false
+}
+
+// catchUp: a node that lags (or a height that has run out of its time budget)
+// is given again what it may have forgotten (the engine prunes old rounds and
+// loses received votes at a restart; in a deployment the syncer does this):
+// the precommits for the block others have finalized and its parts, else the
+// votes of its current and previous round.
+func (nw *netw) catchUp(r *rnode, now time.Time) bool {
+	if now.Sub(r.lastRedo) < 15*time.Millisecond {
+		return false
+	}
+	h := r.traceH
+	if r.redoN[h] >= 120 {
+		return false
+	}
+	dec := nw.decidedBlk[h]
+	n := len(nw.pool)
+	for k := 0; k < n; k++ {
+		r.redoCur = (r.redoCur + 1) % n
+		p := nw.pool[r.redoCur]
+		if p.H != h || p.Src == r.idx {
+			continue
+		}
+		ds := p.dst[r.idx]
+		if ds == nil || ds.delivered < 1 {
+			continue
+		}
+		want := false
+		if dec != nil {
+			want = (p.Kind == "vote" && p.V.Type == 1 && p.V.Dec == dec.ID) || (p.Kind == "part" && p.Blk == dec.ID)
+		} else {
+			want = (p.Kind == "vote" || p.Kind == "votelist") && p.Round >= r.lastObs.Round-1 && p.Round <= r.lastObs.Round
+		}
+		if !want {
+			continue
+		}
+		r.lastRedo = now
+		r.redoN[h]++
 		nw.evDeliver(r, p, nil)
 		return true
 	}
@@ -399,7 +449,9 @@ func (nw *netw) byzAct() {
 			}
 		}
 		if len(keys) > 0 && nw.rnd.Intn(60) == 0 {
-			nw.byzFlood(b, keys[nw.rnd.Intn(len(keys))])
+			if k := keys[nw.rnd.Intn(len(keys))]; !nw.benign[k.h] {
+				nw.byzFlood(b, k)
+			}
 		}
 	}
 }
@@ -469,6 +521,15 @@ func (nw *netw) byzVote(b int, k hr, typ int) {
 		p := nw.injectVote(nw.mkVote(b, vt, k.h, k.r, v, ts), nil)
 		nw.delayPacket(p, 300)
 		bs.mine = append(bs.mine, p)
+		if typ == 1 && v != nil && nw.rnd.Intn(4) == 0 {
+			// the same block precommitted in neighbouring rounds as well (votes of
+			// different rounds must never add up)
+			for _, r2 := range []int32{k.r - 1, k.r + 1} {
+				if r2 >= 0 {
+					bs.mine = append(bs.mine, nw.injectVote(nw.mkVote(b, vt, k.h, r2, v, ts), nil))
+				}
+			}
+		}
 	case c < 45: // withhold
 	default: // equivocate: per destination block / nil / another block / nothing
 		var choices []string
@@ -579,12 +640,13 @@ func (nw *netw) byzHelp(b int, k hr, step int) {
 func (nw *netw) allDone() bool {
 	for _, i := range nw.reals {
 		r := nw.nodes[i]
+		if r.fin[int64(nw.cfg.Heights)] {
+			continue
+		}
 		if r.dead {
 			continue
 		}
-		if !r.fin[int64(nw.cfg.Heights)] {
-			return false
-		}
+		return false
 	}
 	return true
 }
